@@ -590,6 +590,12 @@ func chanRoot(v ssa.Value) ssa.Value {
 				v = b
 				continue
 			}
+		case *ssa.Parameter:
+			// a parameter of a function literal that is only run at one site stands for the argument it gets there
+			if b := core.LiteralParamBinding(x); b != nil {
+				v = b
+				continue
+			}
 		case *ssa.IndexAddr:
 			v = x.X
 			continue
